@@ -346,7 +346,9 @@ def op_args(scen, root, populate=None):
     if code == 30:
         bits = op["a0"]
         writer, readers, sop, checker, sync = bits & 15, (bits >> 4) & 15, (bits >> 8) & 255, (bits >> 16) & 15, (bits >> 20) & 1
-        wspec = "none" if writer == 0 else ("plain:%s:100" % w if writer == 1 else "sharded:%s:2:100" % os.path.join(root, "s"))
+        maint = (scen.get("fault") or {}).get("kind") in ("readdir", "dstat") or any(c.get("kind") == "readdir" for c in scen.get("calls", []))
+        wcap = 3 if maint else 100   # capacity < 6 => period 1 => maintenance on every write (the harness's RNG draw is symbolic)
+        wspec = "none" if writer == 0 else ("plain:%s:%d" % (w, wcap) if writer == 1 else "sharded:%s:2:%d" % (os.path.join(root, "s"), wcap))
         rspec = "-" if readers == 0 else ",".join("plain:%s" % os.path.join(root, d) for d in ["r", "q"][:readers])
         cspec = {0: "none", 1: "bytes", 2: "panic"}[checker]
         h1, h2 = hashes_for(0, 1, 2)
@@ -393,13 +395,22 @@ def full_strace(nat, args, profile):
     return out
 
 
+KIND_FILTER = {"readdir": (["openat"], lambda ln: "O_DIRECTORY" in ln),
+               "open": (["openat", "open"], lambda ln: "O_DIRECTORY" not in ln and "O_CREAT" not in ln),
+               "mktemp": (["openat"], lambda ln: "O_CREAT" in ln),
+               "utimes": (["utimensat", "openat"], lambda ln: "O_DIRECTORY" not in ln and "O_CREAT" not in ln),
+               "stat": (["statx", "newfstatat"], lambda ln: "EFAULT" not in ln and "AT_EMPTY_PATH" not in ln),
+               "dstat": (["statx", "newfstatat"], lambda ln: "EFAULT" not in ln),
+               "fstat": (["statx", "fstat", "newfstatat"], lambda ln: "AT_EMPTY_PATH" in ln or ln.split("(")[0].endswith("fstat"))}
+
+
 def fault_injection(scen, nat, args, profile, setup):
     """strace arguments that make the scenario's failing call fail natively (two passes: the first
-    counts how many calls of that kind happen before the operation starts)."""
+    locates the k-th call of that kind inside the operation and counts the same-named calls before it)."""
     ft = scen.get("fault")
     if not ft:
         return []
-    names = SYSCALLS.get(ft["kind"], [])
+    names, flt = KIND_FILTER.get(ft["kind"], (SYSCALLS.get(ft["kind"], []), lambda ln: True))
     if not names:
         return None
     root = nat.sandbox()
@@ -411,14 +422,14 @@ def fault_injection(scen, nat, args, profile, setup):
     begin = next((i for i, (n, ln) in enumerate(calls) if "kvreplay-marker-begin" in ln), None)
     if begin is None:
         return None
-    inside = [(n, ln) for (n, ln) in calls[begin + 1:] if n in names and "kvreplay-marker" not in ln]
+    inside = [i for i in range(begin + 1, len(calls)) if calls[i][0] in names and "kvreplay-marker" not in calls[i][1] and flt(calls[i][1])]
     if len(inside) < ft["occurrence"] or ft["occurrence"] < 1:
         return None
-    target = inside[ft["occurrence"] - 1][0]
-    before = sum(1 for (n, ln) in calls[:begin + 1] if n == target)
-    nth_inside = sum(1 for (n, ln) in inside[:ft["occurrence"]] if n == target)
+    tidx = inside[ft["occurrence"] - 1]
+    target = calls[tidx][0]
+    when = sum(1 for (n, ln) in calls[:tidx + 1] if n == target)
     err = {5: "EIO", 13: "EACCES", 28: "ENOSPC", 116: "ESTALE", 20: "ENOTDIR", 24: "EMFILE", 18: "EXDEV"}.get(ft["errno"], "EIO")
-    return ["-e", "inject=%s:error=%s:when=%d" % (target, err, before + nth_inside)]
+    return ["-e", "inject=%s:error=%s:when=%d" % (target, err, when)]
 
 
 # --- native counterparts of KV assertions -----------------------------------------------------------
@@ -674,6 +685,12 @@ def o_outside_universe(scen, nat, msg):
             base = os.path.basename(p)
             if p not in r["before"] and base.startswith(".") and not base.startswith(".kismet"):
                 bad.append((profile, "created %s in the dot-prefixed namespace (fault %s)" % (p, r["injected"])))
+        # transient effects: any system call naming a dot-prefixed entry (outside .kismet*) of a cache directory
+        for ln in r["strace"]:
+            m = re.search(r'"(/[^"]*/(?:w|s/\.kismet_[0-9a-f]+)/(\.[^"/]*))"', ln)
+            if m and not m.group(2).startswith(".kismet") and "kvreplay-marker" not in ln:
+                bad.append((profile, "system call on %s (fault %s): %s" % (m.group(2), r["injected"], ln[:100])))
+                break
     return verdict(bad, scen, "effect outside the key's own entry", "no effect outside the key's entry natively")
 
 
